@@ -65,6 +65,8 @@ def alignbit (a b c : W) : W := (((a ++ b) >>> (c &&& 31#32).toNat)).setWidth 32
 def lshlAdd (a b c : W) : W := (a <<< (b &&& 31#32)) + c
 def addLshl (a b c : W) : W := (a + b) <<< (c &&& 31#32)
 def add3 (a b c : W) : W := a + b + c
+/-- V_XAD_U32 (GFX9): D.u32 = (S0.u32 ^ S1.u32) + S2.u32, no carry -/
+def xad (a b c : W) : W := (a ^^^ b) + c
 def lshlOr (a b c : W) : W := (a <<< (b &&& 31#32)) ||| c
 /-- V_LSHL_ADD_U64: (S0.u64 << S1[2:0]) + S2.u64 -/
 def lshlAdd64 (a : D) (b : W) (c : D) : D := (a <<< (b &&& 7#32)) + c
